@@ -8,8 +8,11 @@ Inductive case :=
          (ran : bool) (o : obs)
 (* Context.Respond called directly *)
 | CDirect (d : bytes) (registered : list bytes) (produces : list bytes) (rt : option route)
-          (cached : option bytes) (lines : list bytes) (head : bool) (marker : bytes)
+          (cached : option bytes) (lines : list bytes) (head : bool)
+          (marker : bytes)                          (* security.FailedBasicAuth of the request, as observed *)
+          (auth : option (bytes * basic_attempt))   (* the basic authenticator that examined the request first: configured realm, attempt *)
           (dt : data) (tag : bytes) (o : obs).
+
 
 Definition check_case (c : case) : N :=
   match c with
@@ -24,11 +27,12 @@ Definition check_case (c : case) : N :=
               (serve_prop d registered rp codes specs head auth dt tag ran o && order_ok)
     | None => verdict false true
     end
-  | CDirect d registered produces rt cached lines head marker dt tag o =>
+  | CDirect d registered produces rt cached lines head marker auth dt tag o =>
     match parse_accept lines with
     | Some specs =>
-      verdict (obs_agree (respond d registered produces rt cached specs head marker dt) tag o)
-              (direct_prop d registered produces rt cached specs head marker dt tag o)
+      verdict (obs_agree (respond d registered produces rt cached specs head (model_marker auth) dt) tag o &&
+               bytes_eqb marker (model_marker auth))
+              (direct_auth_prop d registered produces rt cached specs head auth dt tag o)
     | None => verdict false true
     end
   end.
